@@ -3,7 +3,6 @@ package c11
 import (
 	"encoding/json"
 	"fmt"
-	"os"
 	"sort"
 	"strconv"
 	"strings"
@@ -90,139 +89,139 @@ func valKinds() []valKind {
 	k := []valKind{
 		// ---------------------------------------------------------------- closures
 		{Name: "clo-use-val", Site: true,
-			Body: `$f = function ($a) use ($x) { return $a . $x; };` + G + `$t = $f("p") . "|";` + G + `$t = $t . $f("q");`,
+			Body:  `$f = function ($a) use ($x) { return $a . $x; };` + G + `$t = $f("p") . "|";` + G + `$t = $t . $f("q");`,
 			Gates: 2, Want: func(x string) string { return "p" + x + "|q" + x }},
 		{Name: "clo-use-ref",
-			Body: `$n = "r" . $x; $f = function ($a) use (&$n) { $n = $n . $a; return $n; };` + G + `$t = $f("a") . "|";` + G + `$t = $t . $f("b") . "|" . $n;`,
+			Body:  `$n = "r" . $x; $f = function ($a) use (&$n) { $n = $n . $a; return $n; };` + G + `$t = $f("a") . "|";` + G + `$t = $t . $f("b") . "|" . $n;`,
 			Gates: 2, Want: func(x string) string { return "r" + x + "a|r" + x + "ab|r" + x + "ab" }},
 		{Name: "clo-nocap", Site: true,
-			Body: `$f = function ($a) { return "<" . $a . ">"; };` + G + `$t = $f($x) . "|";` + G + `$t = $t . $f("z" . $x);`,
+			Body:  `$f = function ($a) { return "<" . $a . ">"; };` + G + `$t = $f($x) . "|";` + G + `$t = $t . $f("z" . $x);`,
 			Gates: 2, Want: func(x string) string { return "<" + x + ">|<z" + x + ">" }},
 		{Name: "arrow", Site: true,
-			Body: `$f = fn($a) => $a . $x;` + G + `$t = $f("p") . "|";` + G + `$t = $t . $f("q");`,
+			Body:  `$f = fn($a) => $a . $x;` + G + `$t = $f("p") . "|";` + G + `$t = $t . $f("q");`,
 			Gates: 2, Want: func(x string) string { return "p" + x + "|q" + x }},
 		{Name: "static-clo-use", Site: true,
-			Body: `$f = static function ($a) use ($x) { return $a . $x; };` + G + `$t = $f("p") . "|";` + G + `$t = $t . $f("q");`,
+			Body:  `$f = static function ($a) use ($x) { return $a . $x; };` + G + `$t = $f("p") . "|";` + G + `$t = $t . $f("q");`,
 			Gates: 2, Want: func(x string) string { return "p" + x + "|q" + x }},
 		{Name: "clo-captures-clo",
-			Body: `$f = function ($y) use ($x) { return $x . "+" . $y; }; $h = function ($n) use ($f) { $r = ""; for ($i = 0; $i < $n; $i++) { $r = $r . $f($i) . ","; } return $r; };` + G + `$t = $h(2) . "|";` + G + `$t = $t . $h(1);`,
+			Body:  `$f = function ($y) use ($x) { return $x . "+" . $y; }; $h = function ($n) use ($f) { $r = ""; for ($i = 0; $i < $n; $i++) { $r = $r . $f($i) . ","; } return $r; };` + G + `$t = $h(2) . "|";` + G + `$t = $t . $h(1);`,
 			Gates: 2, Want: func(x string) string { return x + "+0," + x + "+1,|" + x + "+0," }},
 		{Name: "clo-recursive",
-			Body: `$fact = function ($n) use (&$fact, $x) { if ($n <= 1) { return $x; } return $n . "*" . $fact($n - 1); };` + G + `$t = $fact(3) . "|";` + G + `$t = $t . $fact(2);`,
+			Body:  `$fact = function ($n) use (&$fact, $x) { if ($n <= 1) { return $x; } return $n . "*" . $fact($n - 1); };` + G + `$t = $fact(3) . "|";` + G + `$t = $t . $fact(2);`,
 			Gates: 2, Want: func(x string) string { return "3*2*" + x + "|2*" + x }},
 		{Name: "clo-in-array",
-			Body: `$tbl = ["cb" => function ($a) use ($x) { return $a . $x; }, "pl" => function ($a) { return "(" . $a . ")"; }];` + G + `$h = $tbl["cb"]; $t = $h("a") . "|";` + G + `$h = $tbl["pl"]; $t = $t . $h($x);`,
+			Body:  `$tbl = ["cb" => function ($a) use ($x) { return $a . $x; }, "pl" => function ($a) { return "(" . $a . ")"; }];` + G + `$h = $tbl["cb"]; $t = $h("a") . "|";` + G + `$h = $tbl["pl"]; $t = $t . $h($x);`,
 			Gates: 2, Want: func(x string) string { return "a" + x + "|(" + x + ")" }},
 		{Name: "clo-parks-inside",
-			Body: `$f = function ($a) use ($x, $g) { $loc = $a . $x; verif_gate($g); return $loc . $x; }; $t = $f("in") . "|";` + G + `$t = $t . $f("out");`,
+			Body:  `$f = function ($a) use ($x, $g) { $loc = $a . $x; verif_gate($g); return $loc . $x; }; $t = $f("in") . "|";` + G + `$t = $t . $f("out");`,
 			Gates: 3, Want: func(x string) string { return "in" + x + x + "|out" + x + x }},
 		{Name: "clo-nocap-parks-inside",
-			Body: `$f = function ($a, $gg) { $loc = "k" . $a; verif_gate($gg); return $loc . $a; }; $t = $f($x, $g) . "|";` + G + `$t = $t . $f("o" . $x, $g);`,
+			Body:  `$f = function ($a, $gg) { $loc = "k" . $a; verif_gate($gg); return $loc . $a; }; $t = $f($x, $g) . "|";` + G + `$t = $t . $f("o" . $x, $g);`,
 			Gates: 3, Want: func(x string) string { return "k" + x + x + "|ko" + x + "o" + x }},
 		{Name: "fn-returns-clo", Site: true,
-			Body: `$f = v_adder($x);` + G + `$t = $f("p") . "|";` + G + `$t = $t . $f("q");`,
+			Body:  `$f = v_adder($x);` + G + `$t = $f("p") . "|";` + G + `$t = $t . $f("q");`,
 			Gates: 2, Want: func(x string) string { return "p+" + x + "|q+" + x }},
 		{Name: "fn-returns-plain", Site: true,
-			Body: `$f = v_plain();` + G + `$t = $f($x) . "|";` + G + `$t = $t . $f("q" . $x);`,
+			Body:  `$f = v_plain();` + G + `$t = $f($x) . "|";` + G + `$t = $t . $f("q" . $x);`,
 			Gates: 2, Want: func(x string) string { return "[" + x + "]|[q" + x + "]" }},
 		{Name: "map-precreated",
-			Body: `$m = function ($e) use ($x) { return $e . $x; };` + G + `$t = implode(",", array_map($m, ["a", "b"])) . "|";` + G + `$t = $t . implode(",", array_map($m, ["c"]));`,
+			Body:  `$m = function ($e) use ($x) { return $e . $x; };` + G + `$t = implode(",", array_map($m, ["a", "b"])) . "|";` + G + `$t = $t . implode(",", array_map($m, ["c"]));`,
 			Gates: 2, Want: func(x string) string { return "a" + x + ",b" + x + "|c" + x }},
 		{Name: "map-parks-inside",
-			Body: `$t = implode(",", array_map(function ($e) use ($x, $g) { if ($e == "b") { verif_gate($g); } return $e . $x; }, ["a", "b", "c"])) . "|";` + G + `$t = $t . $x;`,
+			Body:  `$t = implode(",", array_map(function ($e) use ($x, $g) { if ($e == "b") { verif_gate($g); } return $e . $x; }, ["a", "b", "c"])) . "|";` + G + `$t = $t . $x;`,
 			Gates: 2, Want: func(x string) string { return "a" + x + ",b" + x + ",c" + x + "|" + x }},
 		{Name: "usort-nocap",
-			Body: `$arr = [$x . "3", $x . "1", $x . "2"]; $cmp = function ($a, $b) { return $a <=> $b; };` + G + `usort($arr, $cmp); $t = implode(",", $arr) . "|";` + G + `$t = $t . $cmp($x, $x);`,
+			Body:  `$arr = [$x . "3", $x . "1", $x . "2"]; $cmp = function ($a, $b) { return $a <=> $b; };` + G + `usort($arr, $cmp); $t = implode(",", $arr) . "|";` + G + `$t = $t . $cmp($x, $x);`,
 			Gates: 2, Want: func(x string) string { return x + "1," + x + "2," + x + "3|0" }},
 		// ---------------------------------------------------------------- closures made in class methods
 		{Name: "this-nocap", Site: true,
-			Body: `$o = new VSvc($x); $f = $o->fmt();` + G + `$t = $f("hello") . "|";` + G + `$t = $t . $f("bye");`,
+			Body:  `$o = new VSvc($x); $f = $o->fmt();` + G + `$t = $f("hello") . "|";` + G + `$t = $t . $f("bye");`,
 			Gates: 2, Want: func(x string) string { return "hello," + x + "|bye," + x }},
 		{Name: "this-use", Site: true,
-			Body: `$o = new VSvc($x); $f = $o->fmtUse("u");` + G + `$t = $f("p") . "|";` + G + `$t = $t . $f("q");`,
+			Body:  `$o = new VSvc($x); $f = $o->fmtUse("u");` + G + `$t = $f("p") . "|";` + G + `$t = $t . $f("q");`,
 			Gates: 2, Want: func(x string) string { return "pu" + x + "|qu" + x }},
 		{Name: "this-arrow", Site: true,
-			Body: `$o = new VSvc($x); $f = $o->fmtArrow();` + G + `$t = $f("p") . "|";` + G + `$t = $t . $f("q");`,
+			Body:  `$o = new VSvc($x); $f = $o->fmtArrow();` + G + `$t = $f("p") . "|";` + G + `$t = $t . $f("q");`,
 			Gates: 2, Want: func(x string) string { return "p~" + x + "|q~" + x }},
 		{Name: "this-static-clo", Site: true,
-			Body: `$o = new VSvc($x); $f = $o->fmtStatic();` + G + `$t = $f($x) . "|";` + G + `$t = $t . $f("q" . $x);`,
+			Body:  `$o = new VSvc($x); $f = $o->fmtStatic();` + G + `$t = $f($x) . "|";` + G + `$t = $t . $f("q" . $x);`,
 			Gates: 2, Want: func(x string) string { return "s" + x + "|sq" + x }},
 		{Name: "this-nested-clo",
-			Body: `$o = new VSvc($x); $f = $o->fmtNested();` + G + `$t = $f("p") . "|";` + G + `$t = $t . $f("q");`,
+			Body:  `$o = new VSvc($x); $f = $o->fmtNested();` + G + `$t = $f("p") . "|";` + G + `$t = $t . $f("q");`,
 			Gates: 2, Want: func(x string) string { return "pn/" + x + "|qn/" + x }},
 		{Name: "this-counter",
-			Body: `$o = new VSvc($x); $c = $o->counter(); $c();` + G + `$c(); $c();` + G + `$t = $c() . "|" . $o->n . "|" . $o->v;`,
+			Body:  `$o = new VSvc($x); $c = $o->counter(); $c();` + G + `$c(); $c();` + G + `$t = $c() . "|" . $o->n . "|" . $o->v;`,
 			Gates: 2, Want: func(x string) string { return "4|4|" + x }},
 		{Name: "this-map",
-			Body: `$o = new VSvc($x);` + G + `$t = implode(",", $o->mapAll(["a", "b"])) . "|";` + G + `$t = $t . implode(",", $o->mapAll(["c"]));`,
+			Body:  `$o = new VSvc($x);` + G + `$t = implode(",", $o->mapAll(["a", "b"])) . "|";` + G + `$t = $t . implode(",", $o->mapAll(["c"]));`,
 			Gates: 2, Want: func(x string) string { return "a" + x + ",b" + x + "|c" + x }},
 		{Name: "this-child-nocap", Site: true,
-			Body: `$o = new VSvcChild($x); $f = $o->fmt();` + G + `$t = $f($o->get()) . "|";` + G + `$t = $t . $f("bye");`,
+			Body:  `$o = new VSvcChild($x); $f = $o->fmt();` + G + `$t = $f($o->get()) . "|";` + G + `$t = $t . $f("bye");`,
 			Gates: 2, Want: func(x string) string { return "childg" + x + "," + x + "|bye," + x }},
 		{Name: "self-use", Site: true,
-			Body: `$f = VSvc::mk($x);` + G + `$t = $f("a") . "|";` + G + `$t = $t . $f("b");`,
+			Body:  `$f = VSvc::mk($x);` + G + `$t = $f("a") . "|";` + G + `$t = $t . $f("b");`,
 			Gates: 2, Want: func(x string) string { return "Sa" + x + "|Sb" + x }},
 		{Name: "self-plain", Site: true,
-			Body: `$f = VSvc::mkPlain();` + G + `$t = $f($x) . "|";` + G + `$t = $t . $f("b" . $x);`,
+			Body:  `$f = VSvc::mkPlain();` + G + `$t = $f($x) . "|";` + G + `$t = $t . $f("b" . $x);`,
 			Gates: 2, Want: func(x string) string { return "S" + x + "|Sb" + x }},
 		{Name: "late-static",
 			// which class `static::` names inside the closure is C08's business: the request picks
 			// the class from its own data and must get the same answer alone and overlapped
-			Body: `$n = (int)$x; if ($n % 2 == 0) { $f = VSvcChild::mkLate(); } else { $f = VSvc::mkLate(); }` + G + `$t = $f($x) . "|";` + G + `$t = $t . $f("b" . $x);`,
+			Body:  `$n = (int)$x; if ($n % 2 == 0) { $f = VSvcChild::mkLate(); } else { $f = VSvc::mkLate(); }` + G + `$t = $f($x) . "|";` + G + `$t = $t . $f("b" . $x);`,
 			Gates: 2, Want: nil},
 		// ---------------------------------------------------------------- bound closures, callables
 		{Name: "bind-scope",
 			// Closure::bind in origami grants the scope of the class (it does not rebind $this)
-			Body: `$o = new VSvc($x); $f = Closure::bind(function () use ($o) { return "b" . $o->secret; }, null, VSvc::class);` + G + `$t = call_user_func($f) . "|";` + G + `$t = $t . call_user_func($f);`,
+			Body:  `$o = new VSvc($x); $f = Closure::bind(function () use ($o) { return "b" . $o->secret; }, null, VSvc::class);` + G + `$t = call_user_func($f) . "|";` + G + `$t = $t . call_user_func($f);`,
 			Gates: 2, Want: func(x string) string { return "bp" + x + "|bp" + x }},
 		{Name: "callable-array",
-			Body: `$o = new VSvc($x); $f = [$o, "get"];` + G + `$t = call_user_func($f) . "|";` + G + `$o->v = "w" . $x; $t = $t . call_user_func($f);`,
+			Body:  `$o = new VSvc($x); $f = [$o, "get"];` + G + `$t = call_user_func($f) . "|";` + G + `$o->v = "w" . $x; $t = $t . call_user_func($f);`,
 			Gates: 2, Want: func(x string) string { return "g" + x + "|gw" + x }},
 		{Name: "call-user-func-clo",
-			Body: `$f = function () use ($x) { return "c" . $x; }; $h = function () { return "plain"; };` + G + `$t = call_user_func($f) . "|";` + G + `$t = $t . call_user_func($h) . call_user_func($f);`,
+			Body:  `$f = function () use ($x) { return "c" . $x; }; $h = function () { return "plain"; };` + G + `$t = call_user_func($f) . "|";` + G + `$t = $t . call_user_func($h) . call_user_func($f);`,
 			Gates: 2, Want: func(x string) string { return "c" + x + "|plainc" + x }},
 		{Name: "invoke-object",
-			Body: `$o = new VSvc($x);` + G + `$t = $o("a") . "|";` + G + `$t = $t . $o("b");`,
+			Body:  `$o = new VSvc($x);` + G + `$t = $o("a") . "|";` + G + `$t = $t . $o("b");`,
 			Gates: 2, Want: func(x string) string { return "ia" + x + "|ib" + x }},
 		// ---------------------------------------------------------------- generators
 		{Name: "gen-func",
-			Body: `$gn = v_gen($x); $gn->rewind();` + G + `$t = $gn->current() . "|"; $gn->next();` + G + `$t = $t . $gn->current(); $gn->next(); $t = $t . "|" . $gn->current();`,
+			Body:  `$gn = v_gen($x); $gn->rewind();` + G + `$t = $gn->current() . "|"; $gn->next();` + G + `$t = $t . $gn->current(); $gn->next(); $t = $t . "|" . $gn->current();`,
 			Gates: 2, Want: func(x string) string { return x + "a|" + x + "b|" + x + "c" }},
 		{Name: "gen-method",
-			Body: `$o = new VSvc($x); $gn = $o->gen(); $gn->rewind();` + G + `$t = $gn->current() . "|"; $gn->next();` + G + `$t = $t . $gn->current(); $gn->next(); $t = $t . "|" . $gn->current();`,
+			Body:  `$o = new VSvc($x); $gn = $o->gen(); $gn->rewind();` + G + `$t = $gn->current() . "|"; $gn->next();` + G + `$t = $t . $gn->current(); $gn->next(); $t = $t . "|" . $gn->current();`,
 			Gates: 2, Want: func(x string) string { return "a" + x + "|b" + x + "|c" + x }},
 		{Name: "gen-parks-inside",
-			Body: `$gn = v_genpark($x, $g); $gn->rewind(); $t = $gn->current() . "|";` + G + `$gn->next(); $t = $t . $gn->current();`,
+			Body:  `$gn = v_genpark($x, $g); $gn->rewind(); $t = $gn->current() . "|";` + G + `$gn->next(); $t = $t . $gn->current();`,
 			Gates: 2, Want: func(x string) string { return "a" + x + "|b" + x }},
 		// ---------------------------------------------------------------- objects
 		{Name: "obj-props",
-			Body: `$o = new VSvc($x); $o->bump(2);` + G + `$o->bump(3); $t = $o->v . ":" . $o->n . "|";` + G + `$t = $t . $o->get() . ":" . $o->bump(1)->n;`,
+			Body:  `$o = new VSvc($x); $o->bump(2);` + G + `$o->bump(3); $t = $o->v . ":" . $o->n . "|";` + G + `$t = $t . $o->get() . ":" . $o->bump(1)->n;`,
 			Gates: 2, Want: func(x string) string { return x + ":5|g" + x + ":6" }},
 		{Name: "obj-items",
-			Body: `$o = new VSvc($x); $o->add($x)->add("m");` + G + `$o->add($x . "z"); $t = $o->join() . "|";` + G + `$o->items[] = "w"; $t = $t . $o->join() . count($o->items);`,
+			Body:  `$o = new VSvc($x); $o->add($x)->add("m");` + G + `$o->add($x . "z"); $t = $o->join() . "|";` + G + `$o->items[] = "w"; $t = $t . $o->join() . count($o->items);`,
 			Gates: 2, Want: func(x string) string { return x + ".m." + x + "z.|" + x + ".m." + x + "z.w.4" }},
 		{Name: "obj-graph",
-			Body: `$root = new VNode("r" . $x); $a = new VNode("a" . $x); $root->kids[] = $a;` + G + `$a->kids[] = new VNode("b" . $x); $t = $root->show() . "|";` + G + `$root->kids[] = new VNode($x); $t = $t . $root->show();`,
+			Body:  `$root = new VNode("r" . $x); $a = new VNode("a" . $x); $root->kids[] = $a;` + G + `$a->kids[] = new VNode("b" . $x); $t = $root->show() . "|";` + G + `$root->kids[] = new VNode($x); $t = $t . $root->show();`,
 			Gates: 2, Want: func(x string) string {
 				return "r" + x + "(a" + x + "(b" + x + "()))|r" + x + "(a" + x + "(b" + x + "())" + x + "())"
 			}},
 		{Name: "anon-class",
-			Body: `$o = new class($x) { public $v; function __construct($v) { $this->v = $v; } function get() { return "anon" . $this->v; } function mk() { return function ($a) { return $a . $this->v; }; } }; $f = $o->mk();` + G + `$t = $o->get() . "|";` + G + `$t = $t . $f("p");`,
+			Body:  `$o = new class($x) { public $v; function __construct($v) { $this->v = $v; } function get() { return "anon" . $this->v; } function mk() { return function ($a) { return $a . $this->v; }; } }; $f = $o->mk();` + G + `$t = $o->get() . "|";` + G + `$t = $t . $f("p");`,
 			Gates: 2, Want: func(x string) string { return "anon" + x + "|p" + x }},
 		{Name: "clone",
-			Body: `$o = new VSvc($x); $c = clone $o; $c->v = "c" . $x;` + G + `$t = $o->v . "|" . $c->v . "|";` + G + `$c->bump(2); $t = $t . $o->n . $c->n;`,
+			Body:  `$o = new VSvc($x); $c = clone $o; $c->v = "c" . $x;` + G + `$t = $o->v . "|" . $c->v . "|";` + G + `$c->bump(2); $t = $t . $o->n . $c->n;`,
 			Gates: 2, Want: func(x string) string { return x + "|c" + x + "|02" }},
 		{Name: "tostring",
-			Body: `$o = new VSvc($x);` + G + `$t = "w=$o|";` + G + `$t = $t . "v=$o";`,
+			Body:  `$o = new VSvc($x);` + G + `$t = "w=$o|";` + G + `$t = $t . "v=$o";`,
 			Gates: 2, Want: func(x string) string { return "w=str" + x + "|v=str" + x }},
 		{Name: "stdclass",
-			Body: `$o = new stdClass(); $o->v = $x; $o->list = [$x];` + G + `$o->w = "w" . $x; $t = $o->v . $o->w . "|";` + G + `$l = $o->list; $l[] = "k"; $t = $t . implode(",", $l) . count($o->list);`,
+			Body:  `$o = new stdClass(); $o->v = $x; $o->list = [$x];` + G + `$o->w = "w" . $x; $t = $o->v . $o->w . "|";` + G + `$l = $o->list; $l[] = "k"; $t = $t . implode(",", $l) . count($o->list);`,
 			Gates: 2, Want: func(x string) string { return x + "w" + x + "|" + x + ",k1" }},
 		{Name: "method-parks-inside",
-			Body: `$o = new VSvc($x); $t = $o->park($g) . "|";` + G + `$t = $t . $o->park($g);`,
+			Body:  `$o = new VSvc($x); $t = $o->park($g) . "|";` + G + `$t = $t . $o->park($g);`,
 			Gates: 3, Want: func(x string) string { return "m" + x + x + "|m" + x + x }},
 		{Name: "child-object",
-			Body: `$n = (int)$x; if ($n % 2 == 0) { $o = new VSvcChild($x); } else { $o = new VSvc($x); }` + G + `$t = $o->get() . "|";` + G + `$t = $t . $o->get();`,
+			Body:  `$n = (int)$x; if ($n % 2 == 0) { $o = new VSvcChild($x); } else { $o = new VSvc($x); }` + G + `$t = $o->get() . "|";` + G + `$t = $t . $o->get();`,
 			Gates: 2, Want: func(x string) string {
 				n, _ := strconv.Atoi(x)
 				if n%2 == 0 {
@@ -233,29 +232,29 @@ func valKinds() []valKind {
 		// ---------------------------------------------------------------- exceptions
 		{Name: "exception-caught",
 			// the message of a built-in exception is not read here (known finding builtin-exception:shared-message)
-			Body: `$e = new Exception("m" . $x); $loc = "l" . $x;` + G + `try { throw $e; } catch (Exception $c) { $t = $loc . "caught"; } finally { $t = $t . "|f" . $x; }` + G + `try { v_thrower($x); $t = $t . "not-reached"; } catch (Exception $c) { $t = $t . "|c" . $x; }`,
+			Body:  `$e = new Exception("m" . $x); $loc = "l" . $x;` + G + `try { throw $e; } catch (Exception $c) { $t = $loc . "caught"; } finally { $t = $t . "|f" . $x; }` + G + `try { v_thrower($x); $t = $t . "not-reached"; } catch (Exception $c) { $t = $t . "|c" . $x; }`,
 			Gates: 2, Want: func(x string) string { return "l" + x + "caught|f" + x + "|c" + x }},
 		{Name: "try-parks-inside",
-			Body: `try { $loc = "l" . $x; verif_gate($g); throw new Exception("e" . $x); } catch (Exception $c) { verif_gate($g); $t = $loc . "c"; } finally { $t = $t . "|f" . $x; }`,
+			Body:  `try { $loc = "l" . $x; verif_gate($g); throw new Exception("e" . $x); } catch (Exception $c) { verif_gate($g); $t = $loc . "c"; } finally { $t = $t . "|f" . $x; }`,
 			Gates: 2, Want: func(x string) string { return "l" + x + "c|f" + x }},
 		{Name: "exception-message", Known: "builtin-exception:shared-message",
-			Body: `$e = new Exception("m" . $x);` + G + `try { throw $e; } catch (Exception $c) { $t = $c->getMessage(); } finally { $t = $t . "|f" . $x; }` + G + `try { v_thrower($x); } catch (Exception $c) { $t = $t . "|" . $c->getMessage(); }`,
+			Body:  `$e = new Exception("m" . $x);` + G + `try { throw $e; } catch (Exception $c) { $t = $c->getMessage(); } finally { $t = $t . "|f" . $x; }` + G + `try { v_thrower($x); } catch (Exception $c) { $t = $t . "|" . $c->getMessage(); }`,
 			Gates: 2, Want: func(x string) string { return "m" + x + "|f" + x + "|thrown" + x }},
 		{Name: "exception-subclass-message", Known: "builtin-exception:shared-message",
-			Body: `$e = new VAppError("m" . $x, "e" . $x);` + G + `$t = $e->extra . "|";` + G + `$t = $t . $e->getMessage();`,
+			Body:  `$e = new VAppError("m" . $x, "e" . $x);` + G + `$t = $e->extra . "|";` + G + `$t = $t . $e->getMessage();`,
 			Gates: 2, Want: func(x string) string { return "e" + x + "|m" + x }},
 		// ---------------------------------------------------------------- plain values and control flow
 		{Name: "array-nested",
-			Body: `$arr = ["a" => [$x, [$x . "n"]], "b" => $x];` + G + `$arr["a"][1][] = "k" . $x; $arr["c"] = "c" . $x; $t = count($arr) . count($arr["a"][1]) . "|";` + G + `foreach ($arr["a"][1] as $v) { $t = $t . $v . ","; } $t = $t . $arr["b"] . $arr["c"] . $arr["a"][0];`,
+			Body:  `$arr = ["a" => [$x, [$x . "n"]], "b" => $x];` + G + `$arr["a"][1][] = "k" . $x; $arr["c"] = "c" . $x; $t = count($arr) . count($arr["a"][1]) . "|";` + G + `foreach ($arr["a"][1] as $v) { $t = $t . $v . ","; } $t = $t . $arr["b"] . $arr["c"] . $arr["a"][0];`,
 			Gates: 2, Want: func(x string) string { return "32|" + x + "n,k" + x + "," + x + "c" + x + x }},
 		{Name: "reference",
-			Body: `$a = $x; $b = &$a;` + G + `$b = $b . "r"; $t = $a . "|";` + G + `$a = $a . "s"; $t = $t . $b;`,
+			Body:  `$a = $x; $b = &$a;` + G + `$b = $b . "r"; $t = $a . "|";` + G + `$a = $a . "s"; $t = $t . $b;`,
 			Gates: 2, Want: func(x string) string { return x + "r|" + x + "rs" }},
 		{Name: "interpolation",
-			Body: `$o = new VSvc($x); $arr = ["k" => $x];` + G + `$t = "v=$x;{$x}|{$o->v}|";` + G + `$t = $t . "a={$arr['k']}";`,
+			Body:  `$o = new VSvc($x); $arr = ["k" => $x];` + G + `$t = "v=$x;{$x}|{$o->v}|";` + G + `$t = $t . "a={$arr['k']}";`,
 			Gates: 2, Want: func(x string) string { return "v=" + x + ";" + x + "|" + x + "|a=" + x }},
 		{Name: "match",
-			Body: `$n = (int)$x; $m = $n % 3;` + G + `$t = match ($m) { 0 => "zero" . $x, 1 => "one" . $x, default => "two" . $x }; $t = $t . "|";` + G + `$t = $t . match (true) { $n % 2 == 0 => "even" . $x, default => "odd" . $x };`,
+			Body:  `$n = (int)$x; $m = $n % 3;` + G + `$t = match ($m) { 0 => "zero" . $x, 1 => "one" . $x, default => "two" . $x }; $t = $t . "|";` + G + `$t = $t . match (true) { $n % 2 == 0 => "even" . $x, default => "odd" . $x };`,
 			Gates: 2, Want: func(x string) string {
 				n, _ := strconv.Atoi(x)
 				a := []string{"zero", "one", "two"}[n%3]
@@ -266,7 +265,7 @@ func valKinds() []valKind {
 				return a + x + "|" + b + x
 			}},
 		{Name: "ternary-coalesce",
-			Body: `$n = (int)$x; $q = $req->query();` + G + `$t = ($n % 2 == 0 ? "e" : "o") . $x . "|";` + G + `$t = $t . ($q["nope"] ?? "dflt" . $x) . "|" . ($q["x"] ?? "none");`,
+			Body:  `$n = (int)$x; $q = $req->query();` + G + `$t = ($n % 2 == 0 ? "e" : "o") . $x . "|";` + G + `$t = $t . ($q["nope"] ?? "dflt" . $x) . "|" . ($q["x"] ?? "none");`,
 			Gates: 2, Want: func(x string) string {
 				n, _ := strconv.Atoi(x)
 				a := "o"
@@ -276,54 +275,54 @@ func valKinds() []valKind {
 				return a + x + "|dflt" + x + "|" + x
 			}},
 		{Name: "switch",
-			Body: `$n = (int)$x; $m = $n % 3;` + G + `switch ($m) { case 0: $t = "zero" . $x; break; case 1: $t = "one" . $x; break; default: $t = "two" . $x; }` + G + `$t = $t . "|" . $m;`,
+			Body:  `$n = (int)$x; $m = $n % 3;` + G + `switch ($m) { case 0: $t = "zero" . $x; break; case 1: $t = "one" . $x; break; default: $t = "two" . $x; }` + G + `$t = $t . "|" . $m;`,
 			Gates: 2, Want: func(x string) string {
 				n, _ := strconv.Atoi(x)
 				return []string{"zero", "one", "two"}[n%3] + x + "|" + strconv.Itoa(n%3)
 			}},
 		{Name: "destructure",
-			Body: `[$a, $b] = [$x . "1", $x . "2"];` + G + `[$b, $a] = [$a, $b]; $t = $a . "," . $b . "|";` + G + `[$p, $q] = [$b . "p", $a . "q"]; $t = $t . $p . $q;`,
+			Body:  `[$a, $b] = [$x . "1", $x . "2"];` + G + `[$b, $a] = [$a, $b]; $t = $a . "," . $b . "|";` + G + `[$p, $q] = [$b . "p", $a . "q"]; $t = $t . $p . $q;`,
 			Gates: 2, Want: func(x string) string { return x + "2," + x + "1|" + x + "1p" + x + "2q" }},
 		{Name: "recursion-parks-inside",
-			Body: `$t = v_deep($x, $g, 3) . "|";` + G + `$t = $t . v_deep($x, $g, 1);`,
+			Body:  `$t = v_deep($x, $g, 3) . "|";` + G + `$t = $t . v_deep($x, $g, 1);`,
 			Gates: 3, Want: func(x string) string {
 				return "d3" + x + "(d2" + x + "(d1" + x + "(d0" + x + ")))|d1" + x + "(d0" + x + ")"
 			}},
 		{Name: "loop-parks-inside",
-			Body: `$arr = [$x . "a", $x . "b", $x . "c"]; foreach ($arr as $k => $v) { if ($k == 1) { verif_gate($g); } $t = $t . $k . $v . ","; } for ($i = 0; $i < 3; $i++) { if ($i == 2) { verif_gate($g); } $t = $t . $i . $x; }`,
+			Body:  `$arr = [$x . "a", $x . "b", $x . "c"]; foreach ($arr as $k => $v) { if ($k == 1) { verif_gate($g); } $t = $t . $k . $v . ","; } for ($i = 0; $i < 3; $i++) { if ($i == 2) { verif_gate($g); } $t = $t . $i . $x; }`,
 			Gates: 2, Want: func(x string) string { return "0" + x + "a,1" + x + "b,2" + x + "c,0" + x + "1" + x + "2" + x }},
 		{Name: "while-parks-inside",
-			Body: `$i = 0; $acc = ""; while ($i < 4) { $acc = $acc . $x . $i; if ($i % 2 == 1) { verif_gate($g); } $i = $i + 1; } $t = $acc;`,
+			Body:  `$i = 0; $acc = ""; while ($i < 4) { $acc = $acc . $x . $i; if ($i % 2 == 1) { verif_gate($g); } $i = $i + 1; } $t = $acc;`,
 			Gates: 2, Want: func(x string) string { return x + "0" + x + "1" + x + "2" + x + "3" }},
 		{Name: "string-builtins",
-			Body: `$parts = explode(",", $x . "," . $x . "z");` + G + `$t = implode("/", $parts) . "|" . strtoupper("ab" . $x) . "|";` + G + `$t = $t . str_repeat($x, 2) . "|" . strlen($x . "abc");`,
+			Body:  `$parts = explode(",", $x . "," . $x . "z");` + G + `$t = implode("/", $parts) . "|" . strtoupper("ab" . $x) . "|";` + G + `$t = $t . str_repeat($x, 2) . "|" . strlen($x . "abc");`,
 			Gates: 2, Want: func(x string) string {
 				return x + "/" + x + "z|AB" + x + "|" + x + x + "|" + strconv.Itoa(len(x)+3)
 			}},
 		{Name: "json-roundtrip",
-			Body: `$j = json_encode(["x" => $x, "l" => [1, $x]]);` + G + `$d = json_decode($j, true); $t = $d["x"] . "|";` + G + `$t = $t . $d["l"][1] . "|" . $j;`,
+			Body:  `$j = json_encode(["x" => $x, "l" => [1, $x]]);` + G + `$d = json_decode($j, true); $t = $d["x"] . "|";` + G + `$t = $t . $d["l"][1] . "|" . $j;`,
 			Gates: 2, Want: func(x string) string { return x + "|" + x + `|{"x":"` + x + `","l":[1,"` + x + `"]}` }},
 		{Name: "variable-variable",
-			Body: `$name = "dyn"; $$name = "d" . $x;` + G + `$t = $dyn . "|";` + G + `$t = $t . $$name;`,
+			Body:  `$name = "dyn"; $$name = "d" . $x;` + G + `$t = $dyn . "|";` + G + `$t = $t . $$name;`,
 			Gates: 2, Want: func(x string) string { return "d" + x + "|d" + x }},
 		{Name: "nested-function", NoLoad: true,
-			Body: `if (!function_exists("v_inner")) { function v_inner($p) { return "in" . $p; } }` + G + `$t = v_inner($x) . "|";` + G + `$t = $t . v_inner("q" . $x);`,
+			Body:  `if (!function_exists("v_inner")) { function v_inner($p) { return "in" . $p; } }` + G + `$t = v_inner($x) . "|";` + G + `$t = $t . v_inner("q" . $x);`,
 			Gates: 2, Want: func(x string) string { return "in" + x + "|inq" + x }},
 		{Name: "res-multi-write",
-			Body: `$res->header("X-A", "a" . $x); $res->write("1" . $x . "|");` + G + `$res->write("2" . $x . "|"); $res->header("X-B", "b" . $x);` + G + `$t = "3" . $x;`,
+			Body:  `$res->header("X-A", "a" . $x); $res->write("1" . $x . "|");` + G + `$res->write("2" . $x . "|"); $res->header("X-B", "b" . $x);` + G + `$t = "3" . $x;`,
 			Gates: 2, Want: func(x string) string { return "1" + x + "|2" + x + "|3" + x }},
 		// ---------------------------------------------------------------- handler closure created inside a class method
 		{Name: "host-clo-use", Host: "method", Site: true,
-			Body: `$f = function ($a) use ($x) { return $a . $x . $this->tag; };` + G + `$t = $f("p") . "|";` + G + `$t = $t . $f("q");`,
+			Body:  `$f = function ($a) use ($x) { return $a . $x . $this->tag; };` + G + `$t = $f("p") . "|";` + G + `$t = $t . $f("q");`,
 			Gates: 2, Want: func(x string) string { return "p" + x + "H|q" + x + "H" }},
 		{Name: "host-clo-nocap", Host: "method", Site: true,
-			Body: `$f = function ($a) { return $a . $this->tag; };` + G + `$t = $f($x) . "|";` + G + `$t = $t . $f("q" . $x);`,
+			Body:  `$f = function ($a) { return $a . $this->tag; };` + G + `$t = $f($x) . "|";` + G + `$t = $t . $f("q" . $x);`,
 			Gates: 2, Want: func(x string) string { return x + "H|q" + x + "H" }},
 		{Name: "host-this-nocap", Host: "method", Site: true,
-			Body: `$o = new VSvc($x); $f = $o->fmt();` + G + `$t = $f("hello") . "|";` + G + `$t = $t . $f("bye") . $this->tag;`,
+			Body:  `$o = new VSvc($x); $f = $o->fmt();` + G + `$t = $f("hello") . "|";` + G + `$t = $t . $f("bye") . $this->tag;`,
 			Gates: 2, Want: func(x string) string { return "hello," + x + "|bye," + x + "H" }},
 		{Name: "host-helper-method", Host: "method",
-			Body: `$o = new VSvc($x); $loc = $this->wrap($x);` + G + `$t = $loc . "|" . $this->wrap($o->get());` + G + `$t = $t . "|" . $this->wrap("z" . $x);`,
+			Body:  `$o = new VSvc($x); $loc = $this->wrap($x);` + G + `$t = $loc . "|" . $this->wrap($o->get());` + G + `$t = $t . "|" . $this->wrap("z" . $x);`,
 			Gates: 2, Want: func(x string) string { return "{" + x + "}|{g" + x + "}|{z" + x + "}" }},
 	}
 	return k
@@ -713,9 +712,4 @@ func valueStreams(rn *runner) {
 		rnd = append(rnd, valRandom(c.Rand))
 	}
 	vbatch(rnd, "values", 64)
-	if os.Getenv("VERIF_C11_ONLY") == "vals" {
-		for i := 0; i < 10; i++ {
-			runLoad(c, loadCase{Stream: "vals", Seed: c.Rand.U64() % 1000000, InFlight: []int{2, 3, 8, 16, 32, 64}[i%6], Rounds: 4})
-		}
-	}
 }
